@@ -238,11 +238,12 @@ def encFooter (m : Meta) (entriesSize : Nat) : Bytes :=
 def encTable (es : List Entry) : Bytes :=
   encEntries es ++ encFooter (metaOf es) (encEntries es).length
 
-/-- `Table.Document()` of a freshly written table (`endSeqNum` is the seqNum of the last row, as in the code) -/
+/-- `Table.Document()` of a freshly written table (`endSeqNum` is the maximum seqNum written: rows arrive in key
+order, not in write order) -/
 def docOf (es : List Entry) : Doc :=
   { startKey := (es.head?.map (·.key)).getD [], endKey := (es.getLast?.map (·.key)).getD [],
     size := (encTable es).length, entriesSize := (encEntries es).length,
-    startSeq := (es.head?.map (·.seq)).getD 0, endSeq := (es.getLast?.map (·.seq)).getD 0 }
+    startSeq := (es.head?.map (·.seq)).getD 0, endSeq := es.foldl (fun acc e => max acc e.seq) 0 }
 
 /-- `loadFooter`: an unbounded cursor at `size - footerLen` reads the meta offset, then the two meta blocks -/
 def loadFooter (size : Nat) (data : Bytes) : Option Meta :=
